@@ -45,7 +45,7 @@ def mix_engine(kinds, pat, style):
                       ev=[{'boot': True}] if ev else ()))
     if 'analysis' in kinds:
         algs.append(A('tp', 'z', 'analysis', inputs=[refs[max(1, pat)]], svs=SV2(),
-                      ev=[{'dow': 2, 'time': [1, 2, 3]}] if ev else ()))
+                      ev=[{'dow': 0 if pat == 2 else 2, 'time': [1, 2, 3]}] if ev else ()))   # 0 = Monday
     if 'regress' in kinds:
         algs.append(A('tp', 'r', 'regress', inputs=[refs[max(1, (pat + 1) % 3)]], svs=SV2(),
                       ev=[{'dom': 5, 'time': [4, 5, 6]}] if ev else ()))
